@@ -228,7 +228,11 @@ Definition cstep (c : cluster) (a : action) : result cluster :=
 (* ---------- observable of the cluster: per node (id, up, fsm, master, instance states, pending handshakes,
    inbox length), and the length of every channel i -> j in node order ---------- *)
 Definition cobs_node := (Z * bool * Z * Z * list (Z * Z) * list Z * Z)%type.
-Definition cobs := (list cobs_node * list Z)%type.
+(* third component: per node, the state & modes views it holds of every instance (Node.views_of) *)
+Definition cobs := (list cobs_node * list Z * list (Z * list vrow))%type.
+Definition cobs_nodes (o : cobs) : list cobs_node := fst (fst o).
+Definition cobs_chans (o : cobs) : list Z := snd (fst o).
+Definition cobs_views (o : cobs) : list (Z * list vrow) := snd o.
 
 Definition cobserve (c : cluster) : cobs :=
   let ids := akeys (c_nodes c) in
@@ -236,7 +240,8 @@ Definition cobserve (c : cluster) : cobs :=
           (fst kv, cn_up cn, scode (sm_fsm s), sm_master s,
            map (fun x => (fst x, icode (snd x))) (sm_insts s), cn_pending cn, Z.of_nat (length (cn_inbox cn))))
        (c_nodes c),
-   flat_map (fun i => map (fun j => Z.of_nat (length (chan c i j))) ids) ids).
+   flat_map (fun i => map (fun j => Z.of_nat (length (chan c i j))) ids) ids,
+   map (fun kv => (fst kv, views_of (cn_node (snd kv)))) (c_nodes c)).
 
 Inductive cres := COk (o : cobs) | CCrash (k : crash).
 
@@ -256,7 +261,8 @@ Definition cobs_node_eqb (a b : cobs_node) : bool :=
       && list_eqb Z.eqb p1 p2 && Z.eqb n1 n2
   end.
 Definition cobs_eqb (a b : cobs) : bool :=
-  list_eqb cobs_node_eqb (fst a) (fst b) && list_eqb Z.eqb (snd a) (snd b).
+  list_eqb cobs_node_eqb (cobs_nodes a) (cobs_nodes b) && list_eqb Z.eqb (cobs_chans a) (cobs_chans b)
+  && list_eqb (fun x y => Z.eqb (fst x) (fst y) && list_eqb vrow_eqb (snd x) (snd y)) (cobs_views a) (cobs_views b).
 Definition cres_eqb (a b : cres) : bool :=
   match a, b with
   | COk x, COk y => cobs_eqb x y
